@@ -9,7 +9,10 @@ BUDGET = {"quick": 1200, "thorough": 300000}
 RULE = ("case = history executed (i) in a fresh Cello Thread (teardown = collector deletion at thread exit) or (ii) in a "
         "fresh process' main thread (teardown = Cello_Exit through atexit, ledger read from an ELF destructor): new / "
         "new_root / new_raw and alloc / alloc_root / alloc_raw (no constructor call) of instrumented objects (malloc'd and "
-        "arena-allocated; 48 bytes, 52 bytes, 1 MiB and size 0; one with a malloc'd side block of its own), copy (also inside stop windows), explicit del / del_root / "
+        "arena-allocated; 48 bytes, 52 bytes, 1 MiB and size 0; one with a malloc'd side block of its own; one whose "
+        "DESTRUCTOR ALLOCATES 0..4 managed, ledger-tracked objects - the first of them again such an object for up to 3 "
+        "generations - finalised by explicit del / del_root / del_raw, through its owning Box, by forced and threshold sweeps "
+        "(bursts of 4..24 of them, so that the births inside one sweep cross the collection threshold) and by teardown), copy (also inside stop windows), explicit del / del_root / "
         "del_raw, Box ownership with the owner allocated before or after the owned object, chains and cycles of Boxes, a "
         "garbage Box whose pointee is still registered when the sweep finalises the Box, Array<Box> / List<Box> / "
         "Table<Int,Box> / Tree<Int,Box> owners with pop / pop_at / rem / resize 0 / del / drop, managed, root and raw library "
@@ -23,7 +26,8 @@ RULE = ("case = history executed (i) in a fresh Cello Thread (teardown = collect
         "accounting (linker --wrap): no block allocated by the case's thread outstanding after teardown. non-trivial = a sweep "
         "(forced, threshold or teardown) finalised an owner together with its owned object, or a del inside a stop window, or "
         ">= 1 object survived to teardown. distinct = distinct case JSON.")
-ASSUMPTIONS = ["out-of-contract histories (double del, del of an object owned by a Box, destructors that allocate) are not generated; a destructor that allocates during a sweep loses the rest of the pending list - notes/C06-candidate-destructor-allocates.c",
+ASSUMPTIONS = ["out-of-contract histories (double del, del of an object owned by a Box) are not generated",
+               "destructors that allocate: chains are finite (a destructor of generation g allocates generation g+1 objects only, at most 3 generations); such objects are never finalised while the collector is stopped (what their destructors allocated would be unregistered and nobody's to delete), so a case that holds one has no further stop window",
                "removing a Box element from its container (pop, pop_at, rem, resize 0, overwriting a key) is not asserted to finalise the pointee at once: left to the collector it would still be finalised exactly once",
                "objects allocated inside a stop window are deleted explicitly inside the window (in-tree documentation makes them the user's duty); deleting them after start is the known finding stop-window-del-after-start",
                "block accounting counts only blocks allocated by the case's own thread"]
@@ -49,11 +53,16 @@ def _case(draw):
     churn_next = 10000
     nbig = 0
     tls_used = 0
+    born_next = 50000      # ledger ids of the objects that allocating destructors will create
+    allow_d = draw(st.booleans())      # half of the cases use objects with allocating destructors at all (they exclude stop windows)
+    has_d = False          # once a case holds an object with an allocating destructor the collector is not stopped any
+                           # more: an object born while it is stopped would be unregistered and nobody's to delete
     flags = {"owner_pair": False, "stop_del": False}
     n = draw(st.integers(2, 50))
     for _ in range(n):
         o = draw(st.sampled_from(["new", "new", "newa", "newa", "newa", "newx", "copy", "del", "drop", "collect", "churn", "box", "boxchain", "boxcycle", "arrb",
-                                  "stop", "start", "windel", "bigchain", "cont", "cont", "ownc", "ownc", "tlskeep", "boxlive", "wrapcluster", "wrapcluster"]))
+                                  "stop", "start", "windel", "bigchain", "cont", "cont", "ownc", "ownc", "tlskeep", "boxlive", "wrapcluster", "wrapcluster",
+                                  "dnode", "dnode", "dnode", "dburst", "dburst"]))
         if o in ("new", "newa", "newx"):
             cls = draw(st.sampled_from(["m", "m", "m", "root", "raw"]))
             nobj += 1
@@ -340,6 +349,54 @@ def _case(draw):
                     for j, t in held:
                         ops.append(["dt", t])
             flags["owner_pair"] = True
+        elif o == "dnode" and not stopped and allow_d:
+            # an instrumented object whose destructor allocates k managed, ledger-tracked objects - whichever route
+            # finalises it: explicit del / del_root / del_raw, a sweep (forced, threshold), its owning Box, teardown
+            k = draw(st.integers(0, 4))
+            cls = draw(st.sampled_from(["m", "m", "m", "m", "root", "raw"]))
+            how = draw(st.sampled_from(["keep", "garbage", "box", "boxdel", "del"]))
+            nobj += 1
+            h = nobj
+            # depth = allocating generations: the first child is again such an object (one child, depth - 1); at most 3
+            ops.append(["new", h, "noded", cls, k, born_next, draw(st.sampled_from([1, 1, 2, 3]))])
+            born_next += 8
+            has_d = True
+            free = sorted(set(range(16)) - set(kept))
+            if cls != "m":
+                if how == "del":
+                    ops.append(["del", h, "now"])
+                else:
+                    rootraw.append(h)
+            elif how in ("box", "boxdel"):
+                nobj += 1
+                b = nobj
+                ops.append(["new", b, "box", "m", h])
+                if how == "boxdel":
+                    ops.append(["delowner", b, h])
+                    ops.append(["dt1", h])
+                elif free and draw(st.booleans()):
+                    kept[free[0]] = b
+                    ops.append(["stk", free[0], b])
+                flags["owner_pair"] = True
+            elif how == "del":
+                ops.append(["del", h, "now"])
+            elif how == "keep" and free:
+                kept[free[0]] = h
+                ops.append(["stk", free[0], h])
+        elif o == "dburst" and not stopped and allow_d:
+            # many unreferenced objects with allocating destructors, then a collection: the objects born while the sweep
+            # finalises its pending list push the registry over its threshold INSIDE the sweep
+            for _ in range(draw(st.integers(4, 24))):
+                nobj += 1
+                ops.append(["new", nobj, "noded", "m", draw(st.sampled_from([1, 2, 3, 3, 4, 4])), born_next, draw(st.sampled_from([1, 1, 1, 2, 3]))])
+                born_next += 8
+            has_d = True
+            trig = draw(st.sampled_from(["collect", "churn", "none"]))
+            if trig == "collect":
+                ops.append(["collect"])
+            elif trig == "churn" and churn_next + 150 < 39000:
+                ops.append(["churn", churn_next, 150])
+                churn_next += 150
         elif o == "wrapcluster" and not stopped:
             # arena objects aimed at the registry's last slot: a probe cluster that wraps around the table end, made of
             # garbage and of objects kept on the stack, swept right away (the kept ones must survive it unfinalised)
@@ -375,7 +432,7 @@ def _case(draw):
             ops.append(["collect"])
             ops.append(["unstk", free[0]])
             flags["owner_pair"] = True
-        elif o == "stop" and not stopped:
+        elif o == "stop" and not stopped and not has_d:
             ops.append(["stop"])
             stopped = True
         elif o == "start" and stopped:
@@ -410,7 +467,7 @@ def strategy(tier):
     return _case()
 
 
-NODEKINDS = ("node", "nodea", "nodeb", "nodeo", "nodez", "nodem")
+NODEKINDS = ("node", "nodea", "nodeb", "nodeo", "nodez", "nodem", "noded")
 
 
 def encode(case):
@@ -431,7 +488,9 @@ def encode(case):
             else:
                 if len(op) > 4 and str(op[4]).startswith("retype"):
                     emit("retype %s" % op[4][6:])
-                if op[2] == "nodea" and len(op) > 4 and op[4] != -1:
+                if op[2] == "noded":
+                    emit("new %d noded %s %d %d %d" % (op[1], op[3], op[4], op[5], op[6] if len(op) > 6 else 1))
+                elif op[2] == "nodea" and len(op) > 4 and op[4] != -1:
                     emit("new %d nodea %s %s" % (op[1], op[3], "last" if op[4] == -2 else str(op[4])))
                 else:
                     emit("new %d %s %s" % (op[1], op[2], op[3]))
@@ -448,6 +507,8 @@ def encode(case):
             emit("popat %d %d" % (op[1], op[2]))
         elif o == "clear":
             emit("clear %d" % op[1])
+        elif o == "dt1":
+            emit("dt %d" % op[1], "dtor=1")
         elif o == "dt0":
             emit("dt %d" % op[1], "dtor=0")
         elif o == "dt":
@@ -519,12 +580,16 @@ def run_case(ctx, case):
     survived = managed > len([x for x in fin_before_teardown if int(x) < 10000 or True])
     has_pair = any(op[0] == "new" and op[2] in ("box", "arrb", "lstb", "tabb", "treb") for op in case["ops"])
     cls = set()
+    nd = 0
     for op in case["ops"]:
         if op[0] in ("new", "alloc"):
             if op[2] in ("nodez", "nodeo", "nodeb"):
                 cls.add("size=" + {"nodez": "0", "nodeo": "52", "nodeb": "1MiB"}[op[2]])
             elif op[2] == "nodem":
                 cls.add("own-side-block+Mark")
+            elif op[2] == "noded":
+                cls.add("destructor-allocates" + ("/" + op[3] if op[3] != "m" else ""))
+                nd += 1
             elif op[2] in ("lstb", "tabb", "treb", "arrb"):
                 cls.add("owning-container=" + op[2])
             elif op[2] not in ("node", "nodea", "box"):
@@ -539,6 +604,8 @@ def run_case(ctx, case):
             cls.add("removal-from-owning-container")
         elif op[0] == "note":
             cls.add(op[1])
+    if td.get("born_td", "0") not in ("0",):
+        cls.add("objects-born-in-teardown-sweep")
     ev += sorted(cls)
     stop_del = False
     st_ = False
